@@ -228,7 +228,17 @@ func runC12(c *Ctx) {
 			return false, "no deferred guard closes the pipe's read end and the path does not close it either: the writer goroutine blocks forever and the files stay open"
 		}
 		if !dominates(guard, gostmt) {
-			return false, "the guard is not armed before the goroutine is started"
+			// registered where the pipe is created (not up front): armed on every path from the creation of the pipe to
+			// the go statement — without a pipe there is no read end to release
+			armed := false
+			for _, pc := range callsIn(f, "io.Pipe") {
+				if pc.Parent() == f && !pathExists(f, pc, gostmt, nil, isOneOf(guard)) {
+					armed = true
+				}
+			}
+			if !armed {
+				return false, "the guard is not armed before the goroutine is started"
+			}
 		}
 		if builtCell != nil {
 			// disarmed only right before the success return
@@ -322,6 +332,8 @@ func runC12(c *Ctx) {
 					return ok && ci.Common().IsInvoke() && ci.Common().Method.Name() == "Close"
 				}) {
 					fileCloser = d
+					// … and the sweep is never abandoned: a file whose Close fails does not keep the remaining ones open
+					c.obI("R12.4", sl.Elem, "close-sweep-never-abandoned", sl.noEarlyExit(), "the deferred sweep over the upload files leaves its loops only when every file was visited (no return or break on a failing Close)", "the sweep can be left from inside the loop: the files not yet reached stay open")
 				}
 			}
 		}
@@ -380,6 +392,7 @@ func runC12(c *Ctx) {
 		}
 	}
 	ruleUploadFailuresPropagated(c, "R12.4", g)
+	rulePartBodyIsWholeFile(c, "R12.4", g, callsIn(g, "io.Copy"))
 	ruleCopyFailureKept(c, "R12.4")
 	c.min("R12.4", 9)
 
